@@ -295,6 +295,13 @@ func genIP(t *rapid.T, label string) string {
 	oct := func(i int) int {
 		return rapid.SampledFrom([]int{0, 1, 9, 10, 99, 100, 127, 128, 199, 200, 254, 255, rapid.IntRange(0, 255).Draw(t, fmt.Sprintf("%s-o%dr", label, i))}).Draw(t, fmt.Sprintf("%s-o%d", label, i))
 	}
+	if rapid.IntRange(0, 5).Draw(t, label+"-padded") == 0 {
+		// dotted decimal: an octet written with leading zeros is still that decimal number (never octal)
+		w := func(i int) string {
+			return fmt.Sprintf("%0*d", rapid.SampledFrom([]int{1, 2, 3, 3, 4}).Draw(t, fmt.Sprintf("%s-w%d", label, i)), oct(i))
+		}
+		return w(0) + "." + w(1) + "." + w(2) + "." + w(3)
+	}
 	return fmt.Sprintf("%d.%d.%d.%d", oct(0), oct(1), oct(2), oct(3))
 }
 
